@@ -773,7 +773,7 @@ class eval_abs(object):
 
             for xx, start, stop in args:
                 if isinstance(xx, ExprInt):
-                    a = xx.arg
+                    a = int(xx.arg)
 
                     mask = (1<<(stop-start))-1
                     a&=mask
@@ -803,7 +803,7 @@ class eval_abs(object):
         rez = 0
         total_bit = 0
         for xx, start, stop in args:
-            a = xx.arg
+            a = int(xx.arg)
             mask = (1<<(stop-start))-1
             a&=mask
             a<<=start#e.args[i][1]
